@@ -12,6 +12,7 @@ import (
 
 	"verif.local/ev"
 
+	"verif/lib/explore"
 	"verif/lib/netctl"
 	"verif/lib/nrun"
 	"verif/lib/nscen"
@@ -324,6 +325,31 @@ func genScenario() *netctl.Scenario {
 // of A x 4 gates (3360) on the default schedule; thorough = 5 configurations x
 // 420 scripts x 2 fins x 5 gates x 2 first rounds of B (42000) on the default
 // schedule, then every single deviation, time-capped.
+//
+// The single deviations are restricted to the sub-family (any configuration,
+// one-round scripts of A, A closing, B created after A's first poll, B plain):
+// every execution is the parent of ~400 deviating jobs, and keeping those for
+// all 42000 members would need tens of gigabytes in the explorer.
 func GenPlans() []nrun.Plan {
-	return []nrun.Plan{{Scenario: genScenario(), QuickBudget: 0, ThoroughBudget: 1, Weight: 4}}
+	return []nrun.Plan{{Scenario: genScenario(), QuickBudget: 0, ThoroughBudget: 1, Weight: 4, Allow: genAllow}}
+}
+
+func genAllow(parent explore.Job, point int, label string, cost int) bool {
+	if cost == 0 {
+		return true
+	}
+	gate := "start"
+	for _, l := range parent.Labels {
+		switch {
+		case strings.HasPrefix(l, "sA=") && strings.Contains(l, "."):
+			return false
+		case strings.HasPrefix(l, "fin=") && l != "fin=X":
+			return false
+		case strings.HasPrefix(l, "sB=") && l != "sB=2--c":
+			return false
+		case strings.HasPrefix(l, "gate="):
+			gate = strings.TrimPrefix(l, "gate=")
+		}
+	}
+	return gate == "poll0"
 }
